@@ -30,7 +30,9 @@ def run(run, binfo):
         rules['g'] = render_expr(rng, ['user_id:%(user_id)s', "'x':%(k)s", 'a.b:x', 'role:r0', 'is_admin:True'],
                                  rng.randint(1, 5))
         default = rng.choice([('none',), ('name', 'default'), ('check', 'role:r1')])
-        custom = {'c4a': rng.random() < 0.5, 'c3a': rng.random() < 0.5, 'c4b': rng.random() < 0.5}
+        # custom checks answer with any truthy / falsy value, not only True / False
+        pool = [True, False, True, False, None, 0, '', 1, 'yes', 0.0, 2.5]
+        custom = {'c4a': rng.choice(pool), 'c3a': rng.choice(pool), 'c4b': rng.choice(pool)}
         registered = {n: None for n in names if rng.random() < 0.6}
         target = rng.choice([{}, {'user_id': 'u', 'k': 'x'}, {'user_id': 'v', 'k': 5, 'nested': {'a': [1, 2]}}])
         for q in rng.sample(names + ['g', 'unknown'], 3):
@@ -130,6 +132,8 @@ def run(run, binfo):
                 if r[:2] != ('ret', True):
                     viol('allowed-raised', 'allowed request gave %r under do_raise' % (r,), c, ('ret', True), r)
         run.nontrivial.add((start, falsy))
+    nex = exotic_inputs(run)
+    run.count('exotic_target_runs', nex)
     run.sample(describe(cases[0]))
     run.sample(describe(cases[len(cases) // 2]))
     run.extra['correspondence_disagreements'] = len(bad_corr)
@@ -142,11 +146,80 @@ def run(run, binfo):
                 'on/off x no/custom exception class with positional and keyword arguments x debug logging on/off x rule by name '
                 'or check object x authorize on registered/unregistered names, plus the credential type gate; each group of 8 '
                 'variants is checked against the statement directly (off falsy <=> on raises; exception class and arguments; '
-                'allowed never raises; inputs unchanged; unregistered evaluates nothing) and model vs implementation. '
+                'allowed never raises; inputs unchanged; unregistered evaluates nothing) and model vs implementation; custom checks answer with arbitrary truthy/falsy values; six targets no model value encodes (cycles, 3000 levels, hostile mapping, failing repr) with debug on vs off. '
                 'non-trivial = distinct groups' % nsets)
 
 
+def exotic_targets():
+    import collections.abc
+    t1 = {'k': 'x'}
+    t1['self'] = t1
+    lst = [1]
+    lst.append(lst)
+    t2 = {'k': 'x', 'lst': lst}
+    t3 = {'k': 'x'}
+    cur = t3
+    for _ in range(3000):
+        cur['n'] = {}
+        cur = cur['n']
+
+    class M(collections.abc.Mapping):
+        def __getitem__(self, key):
+            if key == 'k':
+                return 'x'
+            raise KeyError(key)
+
+        def __iter__(self):
+            return iter(['k', 'advertised-but-unreadable'])
+
+        def __len__(self):
+            return 2
+
+    class Odd:
+        def __repr__(self):
+            raise RuntimeError('no repr')
+    return [('self-referential dict', t1), ('cyclic list inside', t2), ('3000 levels deep', t3),
+            ('mapping with an unreadable key', M()), ('value whose repr fails', {'k': 'x', 'o': Odd()}),
+            ('non-string keys', {'k': 'x', 1: 2, None: 3, (1, 2): 4})]
+
+
+def exotic_inputs(run):
+    """targets no model value can encode (cycles, depth, hostile mappings): the debug dump must not change what
+    enforce does -- the same call with debug logging on and off gives the same outcome (implementation only)"""
+    from world import run_impl
+    n = 0
+    for label, tg in exotic_targets():
+        for body, allow in (("'x':%(k)s", True), ("'y':%(k)s", False), ("'x':%(absent)s", False)):
+            for dr in (False, True):
+                for exc in (None, 7):
+                    outs = {}
+                    for debug in (False, True):
+                        c = base_case(rules={'m': body}, rule=('name', 'm'), creds={'roles': [], 'user_id': 'u'},
+                                      target={}, do_raise=dr, exc=exc, debug=debug, warm=False)
+                        if exc is not None:
+                            c['exc_args'] = ('a1', 2)
+                            c['exc_kwargs'] = {'kw': 'v'}
+                        outs[debug] = run_impl(c, deep=tg)[0]
+                        n += 1
+                        run.evaluations += 1
+                    want = ('ret', True) if allow else (('exc',) if dr else ('ret', False))
+                    ok = outs[False][:len(want)] == want and outs[True][:2] == outs[False][:2]
+                    if not ok:
+                        d = describe(c)
+                        d['target'] = label
+                        run.violation('modes-differ:exotic', 'target (%s), rule %r, do_raise %r: debug off %r, debug on %r, '
+                                      'documented %r' % (label, body, dr, outs[False], outs[True], want),
+                                      {'kind': 'failing-input', 'suite': 'spec-c07-exotic', 'input': d,
+                                       'expected': list(want), 'observed': [outs[False], outs[True]]})
+    return n
+
+
 def replay(run, rep):
+    if rep.get('suite') == 'spec-c07-exotic':
+        r2 = type(run)(run.prop, run.tier, run.seed)
+        exotic_inputs(r2)
+        print('exotic targets: %d violations' % len(r2.violations))
+        return not r2.violations
     from world import run_impl
     c = rep['input']
     c['default'] = tuple(c['default'])
